@@ -20,7 +20,8 @@ SAFE_DELIMS = [
     ("<?", "?>"), ("(*", "*)"), ("#[", "]"), ("/*<", ">*/"), ("⟦", "⟧"), ("<<", ">>"),
     ("@@<", ">@@"), ("<$", "$>"), ("⟪", "⟫"), ("<~", "~>"),
 ]
-TAG_NAMES = [("tl", "rm"), ("time-limited", "removal-marker"), ("期限", "印"), ("t.l", "r+m"), ("T", "R")]
+TAG_NAMES = [("tl", "rm"), ("time-limited", "removal-marker"), ("期限", "印"), ("t.l", "r+m"), ("T", "R"),
+             ("Überholt", "Étiquette"), ("Ü", "Удалить")]
 
 # the last three: characters whose code point ends in the byte of a line break / blank / tab / angle bracket
 # (U+4E0A, U+010A, U+0120, U+0109, U+013C, U+013E) - a `c as u8` comparison would take them for those
@@ -118,7 +119,7 @@ MALFORMED_BODIES = ["a=b\nc='d'", "a=b\tc='d'", "a x=1\nskip", "a x=1\n to='2000
 
 class El:
     __slots__ = ("kind", "ready", "skip", "unwrap", "children", "indent", "wrap_open", "wrap_close", "to", "name",
-                 "skip_pos", "extra", "id", "pre_close", "post_open")
+                 "skip_pos", "extra", "id", "pre_close", "post_open", "unwrap_pos")
 
     def __init__(self, kind, ready, skip=False, unwrap=False, children=None, indent=""):
         self.kind, self.ready, self.skip, self.unwrap = kind, ready, skip, unwrap
@@ -129,6 +130,7 @@ class El:
         self.to = None
         self.name = None
         self.skip_pos = 1
+        self.unwrap_pos = None   # None: behind the condition attribute; 1: first attribute
         self.extra = ""
         self.id = 0
         self.pre_close = ""     # text in front of the closing tag on its line (e.g. another inline element)
@@ -154,7 +156,10 @@ class Spelling:
             a = "q='1'"
         parts = [self.tagname(e.kind), a]
         if e.unwrap:
-            parts.append("unwrap-block")
+            if e.unwrap_pos is None:
+                parts.append("unwrap-block")
+            else:
+                parts.insert(min(e.unwrap_pos, len(parts)), "unwrap-block")
         if e.skip:
             parts.insert(min(e.skip_pos, len(parts)), "skip")
         if e.extra:
@@ -186,7 +191,7 @@ class DocGen:
                  times=None, names=None, p_inline=0.0, p_wrapper_tags=0.0):
         self.rng = rng
         self.depth = depth
-        self.unit = unit or rng.choice(["  ", "    ", "\t"])
+        self.unit = unit or rng.choice(["  ", "    ", "\t", "  ", "    ", "\t", " \t", "\t "])
         self.p_el, self.p_ready, self.p_skip, self.p_unwrap = p_el, p_ready, p_skip, p_unwrap
         self.p_blank, self.p_wsonly, self.allow_unwrap, self.kinds = p_blank, p_wsonly, allow_unwrap, kinds
         self.max_items, self.unique = max_items, unique
@@ -213,6 +218,8 @@ class DocGen:
                 e = El(kind, rng.random() < self.p_ready, rng.random() < self.p_skip,
                        self.allow_unwrap and rng.random() < self.p_unwrap, indent=indent)
                 e.skip_pos = rng.choice([1, 2, 3])
+                if e.unwrap and rng.random() < 0.25:
+                    e.unwrap_pos = 1
                 if self.times and kind == "tl":
                     e.to = rng.choice(self.times)
                 if self.names and kind == "rm":
